@@ -20,6 +20,9 @@ import ClairModel.Proofs.CvssTemporal2
 import ClairModel.Proofs.CvssOsv
 import ClairModel.Proofs.CvssOsv2
 
+-- every variable of a property statement is bound explicitly: a misspelt name is an error, not a new variable
+set_option autoImplicit false
+
 namespace ClairModel.Props.C18
 open ClairModel ClairModel.Cvss ClairModel.CvssSpec ClairModel.Gen.Cvss
 
